@@ -522,6 +522,18 @@ class ListenerRequestHandler(BaseHTTPRequestHandler):
         """
         return self.server.listener.logger
 
+    def handle(self):
+        """
+        Overrides the inherited method to log errors of the TLS handshake,
+        which is performed when the request is read from an HTTPS connection.
+        """
+        try:
+            super().handle()
+        except ssl.SSLError as exc:
+            self.logger.error(
+                "TLS error on connection from %s: %s",
+                self.client_address[0], exc)
+
     def invalid_method(self):
         """
         Handle invalid HTTP methods by sending HTTP status 405 "Method Not
@@ -1545,9 +1557,15 @@ class WBEMListener:
                                 f"Issue opening {fn}: {exc}")
                             new_exc.__cause__ = None
                             raise new_exc  # ListenerCertificateError
+                        # The TLS handshake is not performed when accepting
+                        # a connection in the listener thread, but by the
+                        # request handler thread when it reads the request.
+                        # Otherwise, a client that connects without starting
+                        # the handshake would block the listener thread.
                         server.socket = ctx.wrap_socket(
                             server.socket,
-                            server_side=True)
+                            server_side=True,
+                            do_handshake_on_connect=False)
                     except AttributeError:
                         # Fall back to deprecated ssl.wrap_socket() before
                         # Py 2.7.9
